@@ -1067,7 +1067,15 @@ MATCHERS = {
 
 def run(ctx):
     logging.disable(logging.CRITICAL)
+    # second tie: re-translate the listed primitives of spectrum_assignment.py from /repo's source; the equivalence
+    # lemmas of Proofs/OmsGen.v are then re-checked by check_props against what the code says now
+    from . import pygen_c15
+    gen_ok, gen_msg = pygen_c15.regenerate()
     ctx.proof = common.check_props('C15')
+    if not gen_ok:
+        ctx.proof['ok'] = False
+        ctx.proof['log'] = 'harness/pygen_c15.py: ' + gen_msg + '\n' + ctx.proof.get('log', '')
+        ctx.proof['failed_file'] = 'theories/Gen/OmsGen.v (translation of /repo source failed)'
     ctx.rule = ('(a) 1-6 real OMS with maps of random extents/offsets/grids/occupancy through align_grids; (b) random '
                 'common-band lists (grid-aligned judged; off-grid, closer-than-one-slot and malformed streams) through '
                 'find_elements_common_range + create_oms_bitmap + Bitmap; (c) random 2-5 ROADM meshes whose directed lines '
@@ -1193,6 +1201,11 @@ def run(ctx):
             ctx.corr_break(corr, f'first difference in part #{k}', pc,
                            impl=a[k] if k < len(a) else None, model=b[k] if k < len(b) else None)
     ctx.assumptions += [
+        'translator tie: harness/pygen_c15.py (on harness/pygen.py; fail-closed Python-ast -> Gallina for frequency_to_n, '
+        'nvalue_to_frequency (float expressions read as exact rational arithmetic), Bitmap.__init__, Bitmap.insert_left / '
+        'insert_right (every statement), the band arithmetic of create_oms_bitmap, the decisions of align_grids and the '
+        'keys of find_network_freq_range; the surrounding statements are matched against templates) is trusted; the loop '
+        'of create_oms_bitmap is emitted as a right-nested recursion',
         'amplifier stand-ins for stream (b) are Edfa/Multiband_amplifier instances created without __init__ that carry '
         'only params.bands; the equipment dictionary carries only SI.default',
         'frequencies are integer numbers of Hz (exactly representable); cases whose exact quotient lies within 1e-9 of a '
